@@ -254,6 +254,41 @@ class FnTranslator:
         if isinstance(f, ast.Attribute) and isinstance(f.value, ast.Name) and f.value.id in ('np', 'numpy', 'math') \
                 and f.attr in ('maximum', 'minimum', 'fmax', 'fmin') and len(n.args) == 2:
             f = ast.Name(id='max' if 'max' in f.attr else 'min', ctx=ast.Load())
+        elif isinstance(f, ast.Attribute) and isinstance(f.value, ast.Name) and f.value.id in ('np', 'numpy', 'math'):
+            # library functions with an exact rational meaning
+            args = [self.expr(a, env) for a in n.args]
+            if f.attr in ('round', 'rint', 'around') and len(args) == 1:      # numpy: round half to even, float result
+                return ('(inject_Z (round_half_even %s))' % self.toQ(args[0]), 'Q')
+            if f.attr == 'ceil' and len(args) == 1:
+                return ('(inject_Z (ceilQ %s))' % self.toQ(args[0]), 'Q')
+            if f.attr == 'floor' and len(args) == 1:
+                return ('(inject_Z (floorQ %s))' % self.toQ(args[0]), 'Q')
+            if f.attr in ('abs', 'fabs', 'absolute') and len(args) == 1:
+                return ('(Qabs %s)' % self.toQ(args[0]), 'Q') if args[0][1] != 'Z' else ('(Z.abs %s)' % args[0][0], 'Z')
+            if f.attr == 'isnan' and len(args) == 1:
+                if args[0][1] in ('OQ', 'OZ'):
+                    return ('(match %s with Some _ => false | None => true end)' % args[0][0], 'B')
+                return ('false', 'B')            # a non-optional number is never NaN in the exact reading
+            if f.attr == 'clip' and len(args) == 3:
+                return self.clip(args[0], args[1], args[2])
+            raise Refuse('%s: unsupported library call %s.%s' % (self.rel, f.value.id, f.attr))
+        elif isinstance(f, ast.Attribute) and f.attr in ('round', 'abs', 'clip', 'fillna') and not (
+                isinstance(f.value, ast.Name) and f.value.id in ('np', 'numpy', 'math')):
+            # methods of a numeric value (numpy / pandas scalars and, read elementwise, arrays)
+            v = self.expr(f.value, env)
+            args = [self.expr(a, env) for a in n.args]
+            if f.attr == 'round' and not args:
+                return ('(inject_Z (round_half_even %s))' % self.toQ(v), 'Q')
+            if f.attr == 'abs' and not args:
+                return ('(Qabs %s)' % self.toQ(v), 'Q') if v[1] != 'Z' else ('(Z.abs %s)' % v[0], 'Z')
+            if f.attr == 'clip' and len(args) == 2:
+                return self.clip(v, args[0], args[1])
+            if f.attr == 'fillna' and len(args) == 1 and v[1] in ('OQ', 'OZ'):
+                inner = self.new('fill')
+                if v[1] == 'OQ':
+                    return ('(match %s with Some %s => %s | None => %s end)' % (v[0], inner, inner, self.toQ(args[0])), 'Q')
+                return ('(match %s with Some %s => %s | None => %s end)' % (v[0], inner, inner, self.coerce(args[0], 'Z')), 'Z')
+            raise Refuse('%s: unsupported method .%s' % (self.rel, f.attr))
         if isinstance(f, ast.Name):
             args = [self.expr(a, env) for a in n.args]
             if f.id == 'abs' and len(args) == 1:
@@ -272,6 +307,12 @@ class FnTranslator:
                 return (self.toQ(args[0]), 'Q')
             if f.id == 'int' and len(args) == 1 and args[0][1] == 'Z':
                 return args[0]
+            if f.id == 'int' and len(args) == 1 and args[0][1] == 'Q':
+                # Python int(): truncation toward zero
+                q = args[0][0]
+                return ('(if Qle_bool 0 %s then floorQ %s else ceilQ %s)' % (q, q, q), 'Z')
+            if f.id == 'round' and len(args) == 1:
+                return ('(round_half_even %s)' % self.toQ(args[0]), 'Z')      # Python round(): half to even, int result
             if f.id in self.specs:
                 sp = self.specs[f.id]
                 params = sp['params']
@@ -289,6 +330,18 @@ class FnTranslator:
                 return ('(%s%s %s)' % (sp['coq'], '', ' '.join(out)), sp['ret'])
             raise Refuse('%s: call to unsupported function %s' % (self.rel, f.id))
         raise Refuse('%s: unsupported call' % self.rel)
+
+    def clip(self, v, lo, hi):
+        x, l, ty = self.num2(v, lo)
+        x2, h, ty2 = self.num2((x, ty), hi)
+        if ty2 != ty:
+            l = self.toQ((l, ty))
+        if ty2 == 'Z':
+            return ('(Z.min (Z.max %s %s) %s)' % (x2, l, h), 'Z')
+        # numpy clip = minimum(maximum(x, lo), hi)
+        m = self.new('clip')
+        return ('(let %s := (if Qle_bool %s %s then %s else %s) in if Qle_bool %s %s then %s else %s)'
+                % (m, l, x2, x2, l, m, h, m, h), 'Q')
 
     def coerce(self, a, ty):
         if a[1] == ty:
@@ -541,7 +594,7 @@ def translate_all():
                     nfn += 1
                 lines = ['(* GENERATED from %s/%s by tools/py2v_fn.py -- do not edit, never committed by hand. *)' % (REPO, rel),
                          'From Coq Require Import ZArith QArith Qabs String List Bool.',
-                         'From CNV Require Import Base.Str.',
+                         'From CNV Require Import Base.Str Base.QNum.',
                          'Import ListNotations.', 'Open Scope Z_scope.', '',
                          'Section Fn.']
                 for o in sorted(tr.oracles):
